@@ -30,9 +30,10 @@ VARIABLES l,      \* position in T
           regs,   \* register name -> Dec (model state = adopted observations)
           dgs,    \* register name -> digest of its last observation
           bad,    \* set of <<event index, property id, kind>>
-          cov     \* coverage counters: branch tag -> number of events
+          cov,    \* coverage counters: branch tag -> number of events
+          vres    \* C10: instance id -> outcome of the first variant of that operation instance
 
-vars == <<l, regs, dgs, bad, cov>>
+vars == <<l, regs, dgs, bad, cov, vres>>
 
 Ev == T[l]
 
@@ -113,9 +114,19 @@ IsEv(op) == l <= Len(T) /\ Ev.op = op
 (* the specification (a recorded finding, see known_findings.json) reproduces the observed result        *)
 Tag(S, dev) == {<<t[1], t[2], t[3], dev>> : t \in S}
 
+(* C10, stated directly: drivers tag the variants (aliasing shapes, receiver histories) of one operation *)
+(* instance with the same "inst"; every variant must leave the same outcome and receiver as the first.  *)
+VariantKey == [out |-> Ev.out, d |-> IF Ev.out = "ok" THEN Got(Ev.z) ELSE [Got(Ev.z) EXCEPT !.form = "zero", !.neg = FALSE, !.dig = Zero, !.exp = IZero, !.acc = 0]]
+VariantBad == IF "inst" \in DOMAIN Ev /\ Ev.inst \in DOMAIN vres /\ vres[Ev.inst] # VariantKey
+              THEN {<<l, "C10", "variant">>} ELSE {}
+VariantNext == IF "inst" \in DOMAIN Ev /\ Ev.inst \notin DOMAIN vres
+               THEN [k \in DOMAIN vres \cup {Ev.inst} |-> IF k = Ev.inst THEN VariantKey ELSE vres[k]]
+               ELSE vres
+
 StepDev(w, tags, extra, dev) ==
   /\ l' = l + 1
-  /\ bad' = bad \cup Tag(MisZ(w) \cup extra, dev) \cup Tag(Common({Ev.z}), "")
+  /\ vres' = VariantNext
+  /\ bad' = bad \cup Tag(MisZ(w) \cup extra, dev) \cup Tag(Common({Ev.z}) \cup VariantBad, "")
   /\ cov' = Bump({Ev.op} \cup tags)
   /\ regs' = Adopt
   /\ dgs' = Ev.dg
@@ -126,6 +137,7 @@ Step(w, tags) == StepX(w, tags, {})
 (* an observer: no register may change; ok is the comparison of the logged result with the spec *)
 Observe(ok, pid, tags) ==
   /\ l' = l + 1
+  /\ vres' = vres
   /\ bad' = bad \cup Tag((IF Ev.out # "ok" THEN {<<l, "C04", "panic">>} ELSE IF ok THEN {} ELSE {<<l, pid, "ret">>})
                            \cup Common({}), "")
   /\ cov' = Bump({Ev.op} \cup tags)
@@ -142,6 +154,7 @@ ModeTag == {"mode:" \o ToString(Pre(Ev.z).mode)}
 TReset ==
   /\ IsEv("Reset")
   /\ l' = l + 1
+  /\ vres' = <<>>
   /\ regs' = [r \in Named |-> Got(r)]
   /\ dgs' = Ev.dg
   /\ bad' = bad \cup Tag(IF \A r \in Named : Canonical(Ev.post[r]) /\ Got(r) = ZeroValue THEN {} ELSE {<<l, "C08", "zerovalue">>}, "")
@@ -151,6 +164,7 @@ TReset ==
 TLoad ==
   /\ IsEv("Load")
   /\ l' = l + 1
+  /\ vres' = vres
   /\ bad' = bad \cup Tag((IF Ev.out # "ok" THEN {<<l, "C04", "panic">>} ELSE {}) \cup Common({Ev.z}), "")
   /\ cov' = Bump({"Load"})
   /\ regs' = Adopt
@@ -282,7 +296,7 @@ TPreds ==
 CoreNext == TReset \/ TLoad \/ TAdd \/ TSub \/ TMul \/ TQuo \/ TFMA \/ TSqrt \/ TNeg \/ TAbs \/ TSet \/ TCopy \/ TSetPrec \/ TSetMode
             \/ TSetInf \/ TNew \/ TSetInt64 \/ TSetUint64 \/ TNewDecimal \/ TSetMantExp \/ TMantExp \/ TSetBitsExp \/ TSetBitsExpSelf \/ TBitsExp \/ TCmp \/ TPreds
 
-TraceInit == l = 1 /\ regs = <<>> /\ dgs = <<>> /\ bad = {} /\ cov = <<>>
+TraceInit == l = 1 /\ regs = <<>> /\ dgs = <<>> /\ bad = {} /\ cov = <<>> /\ vres = <<>>
 TraceNext == CoreNext
 TraceSpec == TraceInit /\ [][TraceNext]_vars
 
